@@ -1,9 +1,10 @@
 #!/bin/bash
-# usage: tools/take_seed.sh <property id>   — confirms /tmp/seed-<id>-out/{A,B} (tools/confirm_seed.sh), copies them to
+# usage: tools/take_seed.sh <property id> [round]  — confirms /tmp/seed-<id>-out/{A,B} (tools/confirm_seed.sh), copies them to
 # seeded/<id>-{A,B}, runs the property's check against each (tools/seed_meta.py) and removes the seeder's worktree.
-pid=$1
-for v in A B; do
-  src=/tmp/seed-$pid-out/$v
+pid=$1; rnd=${2:-1}
+if [ "$rnd" = 1 ]; then wt=/tmp/seed-$pid; vs="A B"; else wt=/tmp/seed$rnd-$pid; vs="C D"; fi
+for v in $vs; do
+  src=$wt-out/$v
   [ -f $src/patch.diff ] || { echo "no $src/patch.diff"; continue; }
   demo=$(ls $src/*_test.go 2>/dev/null | head -1)
   [ -n "$demo" ] || { echo "no demo test in $src"; continue; }
@@ -23,5 +24,5 @@ PY
   base=$(git -C /repo rev-parse --short HEAD)
   python3 /verif/tools/seed_meta.py $pid-$v $pid $base "$place" "$runpat" "$needs"
 done
-git -C /repo worktree remove --force /tmp/seed-$pid 2>/dev/null
+git -C /repo worktree remove --force $wt 2>/dev/null
 git -C /repo status --short | head -3
